@@ -220,8 +220,9 @@ def Sites.ok (f : Sites) : Bool :=
   f.writeCommentCallers == [.intersperseComments] &&
   f.intersperseCallers == [.flush] &&
   f.nextCommentCallers == [.commentSizeBefore, .intersperseComments, .setComment, .printNode] &&
+  -- sorted by (function, kind) as the translator emits them
   f.queueWrites == [(.nextComment, .inc), (.nextComment, .fromQueue), (.nextComment, .groupOffset),
-                    (.nextComment, .haveNewline), (.nextComment, .inf),
+                    (.nextComment, .inf), (.nextComment, .haveNewline),
                     (.commentSizeBefore, .restore), (.setComment, .zero)] &&
   f.commentsWriters == [.setComment, .printNode] &&
   f.setCommentGuarded && f.useNodeCommentsIsCommentsNil && f.printNodeStartsQueue &&
